@@ -357,17 +357,20 @@ def encode_key(
     bytes
         bytes encoded string
     """
+    # The length prefix counts the bytes that follow, not the characters
+    key_bytes = key.encode()
     if value is None:
-        return struct.pack("I", len(key)) + key.encode()
+        return struct.pack("I", len(key_bytes)) + key_bytes
 
     if value_type == "str" and isinstance(value, str):
+        value_bytes = value.encode()
         return (
-            struct.pack("I", len(key))
-            + key.encode()
-            + struct.pack("I", len(value))
-            + value.encode()
+            struct.pack("I", len(key_bytes))
+            + key_bytes
+            + struct.pack("I", len(value_bytes))
+            + value_bytes
         )
-    return struct.pack("I", len(key)) + key.encode() + struct.pack(value_type, value)
+    return struct.pack("I", len(key_bytes)) + key_bytes + struct.pack(value_type, value)
 
 
 def parse_radec(src_raj: float, src_dej: float) -> SkyCoord:
